@@ -101,6 +101,18 @@ theorem exp_compute (m1 : Bool) (sig exp : Int) (hs : sig ≠ 0) (p : Nat) (hp :
     expEntry m1 (fin sig exp) p = .compute := by
   simp [expEntry, fin, FIn.isZero, hp, hs]
 
+/-! non-vacuity of the guard clauses: concrete operands meeting the hypotheses -/
+example : expEntry false (fin 0 0) 4 = .exactConst 1 := exp_zero_exact 4 (by decide)
+example : lnEntry 10 false (fin 1 0) 53 = .exactConst 0 := ln_one_exact 10 53 (by decide)
+example : lnEntry 10 false (fin (-25) (-1)) 4 = .panic .logNonpositive := ln_nonpositive 10 (-25) (-1) (by decide) 4 (by decide)
+example : lnEntry 10 true (fin (-25) (-1)) 4 = .panic .logNonpositive :=
+  ln_1p_le_neg_one 10 (-25) (-1) (by decide +kernel) (by decide) 4 (by decide)
+example : powfEntry (fin (-3) 0) (fin 5 (-1)) 10 = .panic .powNegativeBase :=
+  powf_negative_base (fin (-3) 0) (fin 5 (-1)) rfl rfl (by decide) 10 (by decide) (by decide) (by decide)
+example : powiEntry ⟨true, 0, 1⟩ 3 10 = .panic .infinite := powi_infinite ⟨true, 0, 1⟩ rfl 3 10
+example : powiEntry (fin 7 0) (-2) 0 = .panic .unlimitedPrecision := powi_neg_unlimited (fin 7 0) rfl (-2) (by decide)
+example : expEntry true (fin 123 (-2)) 10 = .compute := exp_compute true 123 (-2) (by decide) 10 (by decide)
+
 /-! ## §2 enclosures -/
 
 /-- `expEncl` brackets the real exponential, for every rational argument and every effort -/
